@@ -4,6 +4,8 @@ package c18
 import (
 	"bytes"
 	"fmt"
+	"io"
+	"net"
 	"os"
 	"runtime"
 	"runtime/pprof"
@@ -40,6 +42,9 @@ type Item struct {
 	Chunks  []int  `json:"chunks"`
 	PauseMs int    `json:"pause_ms"` // complete: pause between chunks (<= 300)
 	At      int    `json:"at"`       // stall/abort: after this many chunks (0 = right after the headers, -1 = before the headers)
+	// Route: "" = /olla/proxy/; "translated" = a streaming Anthropic request translated for an
+	// OpenAI-compatible backend (only generated for aborts before the backend has answered)
+	Route string `json:"route,omitempty"`
 }
 
 type Case struct {
@@ -92,6 +97,11 @@ func genItem(t *rapid.T) Item {
 	case "abort":
 		it.Chunks = genChunks(t, 6)
 		it.At = rapid.IntRange(0, len(it.Chunks)-1).Draw(t, "at")
+		// a third of the aborts: the client leaves while the backend has not answered yet
+		if rapid.IntRange(0, 2).Draw(t, "early") == 0 {
+			it.At = -1
+			it.Route = rapid.SampledFrom([]string{"", "translated"}).Draw(t, "route")
+		}
 	}
 	return it
 }
@@ -100,6 +110,15 @@ func genCase(t *rapid.T) Case {
 	c := Case{Engine: rapid.SampledFrom([]string{"sherpa", "olla"}).Draw(t, "engine"),
 		Profile: rapid.SampledFrom([]string{"auto", "auto", "streaming", "standard"}).Draw(t, "profile")}
 	n := rapid.IntRange(4, 16).Draw(t, "n")
+	if rapid.IntRange(0, 2).Draw(t, "homogeneous") == 0 {
+		// n copies of one exchange: a leak of a single goroutine or connection per exchange of
+		// that shape adds up beyond the quiescence check's slack
+		it := genItem(t)
+		for i := 0; i < n; i++ {
+			c.Items = append(c.Items, it)
+		}
+		return c
+	}
 	for i := 0; i < n; i++ {
 		c.Items = append(c.Items, genItem(t))
 	}
@@ -137,6 +156,11 @@ func script(it Item, id string, gated bool) backend.Script {
 	s := backend.Script{}
 	if it.Kind == "stall" && it.At < 0 {
 		s.Steps = append(s.Steps, backend.Step{Op: "stall", Ms: int((readTimeout + 3*time.Second).Milliseconds())})
+		return s
+	}
+	if it.Kind == "abort" && it.At < 0 {
+		// never answers; ends when the peer watcher sees Olla drop the connection
+		s.Steps = append(s.Steps, backend.Step{Op: "stall", Ms: 15000})
 		return s
 	}
 	s.Steps = append(s.Steps, backend.HeadStep(200, hs, total, it.Framing, id))
@@ -242,6 +266,9 @@ func runItem(r *rig.Rig, c Case, it Item) []ev.Violation {
 			bad("2xx-for-backend-that-never-answered/"+tag, "status %d: %s", resp.Status, desc)
 		}
 	case "abort":
+		if it.At < 0 {
+			return runEarlyAbort(r, c, it, id, tag, desc)
+		}
 		sent := 0
 		for i := 0; i < it.At; i++ {
 			sent += it.Chunks[i]
@@ -290,6 +317,60 @@ func runItem(r *rig.Rig, c Case, it Item) []ev.Violation {
 
 func peerClosed(ex *backend.Exchange) time.Time { return ex.PeerClosedAt() }
 
+const tmodel = "vm-c18"
+
+// runEarlyAbort: the client sends its request, waits until the backend has received Olla's
+// upstream request, and goes away before the backend has written anything.
+func runEarlyAbort(r *rig.Rig, c Case, it Item, id, tag, desc string) []ev.Violation {
+	var vs []ev.Violation
+	bad := func(sig, f string, a ...any) { vs = append(vs, ev.Violation{Sig: sig, Detail: fmt.Sprintf(f, a...)}) }
+	be := r.Raw[0]
+	req := rawclient.Request("POST", "/olla/proxy/v1/chat/completions", [][2]string{{"Content-Type", "application/json"}, {"X-Verif-Script", id}, {"Connection", "close"}}, []byte(`{"stream":true}`), nil)
+	if it.Route == "translated" {
+		tag += "/translated"
+		req = rawclient.Request("POST", "/olla/anthropic/v1/messages", [][2]string{{"Content-Type", "application/json"}, {"X-Verif-Script", id}, {"Connection", "close"}},
+			[]byte(`{"model":"`+tmodel+`","max_tokens":16,"stream":true,"messages":[{"role":"user","content":"hi"}]}`), nil)
+	}
+	cn, err := net.DialTimeout("tcp", r.S.Addr, 5*time.Second)
+	if err != nil {
+		rec.Inconclusive("client: " + err.Error())
+		return nil
+	}
+	if _, err := cn.Write(req); err != nil {
+		cn.Close()
+		rec.Inconclusive("client: " + err.Error())
+		return nil
+	}
+	ex := be.ExchangeFor(id, 5*time.Second)
+	if ex == nil {
+		// answered without involving the backend: nothing to abort
+		_ = cn.SetReadDeadline(time.Now().Add(time.Second))
+		b, _ := io.ReadAll(io.LimitReader(cn, 300))
+		cn.Close()
+		bad("request-never-reached-backend/"+tag, "%s; client read %q", desc, b)
+		return vs
+	}
+	time.Sleep(20 * time.Millisecond)
+	abortedAt := time.Now()
+	cn.Close() // the client goes away
+	rec.Class("abort-before-backend-answered/" + it.Route)
+	ok := false
+	for i := 0; i < 600; i++ {
+		if pc := peerClosed(ex); !pc.IsZero() {
+			ok = true
+			if d := pc.Sub(abortedAt); d > 5*time.Second {
+				bad("cancellation-not-prompt/"+tag, "backend saw the upstream connection end %v after the client went away: %s", d.Round(time.Millisecond), desc)
+			}
+			break
+		}
+		time.Sleep(10 * time.Millisecond)
+	}
+	if !ok {
+		bad("cancellation-not-propagated/"+tag, "client went away before the backend answered but the upstream request was still open 6 s later: %s", desc)
+	}
+	return vs
+}
+
 var warmed = map[string]bool{}
 
 func runCase(c Case) []ev.Violation {
@@ -300,9 +381,13 @@ func runCase(c Case) []ev.Violation {
 	}
 	r.Mu.Lock()
 	defer r.Mu.Unlock()
-	if _, _, err := r.Setup([]rig.EP{{Backend: 0, Priority: 100}}); err != nil {
+	_, urls, err := r.Setup([]rig.EP{{Backend: 0, Priority: 100}})
+	if err != nil {
 		rec.Inconclusive("setup: " + err.Error())
 		return nil
+	}
+	for _, u := range urls {
+		_ = r.S.RegisterModels(u, tmodel)
 	}
 	// warm the stack once so lazily started goroutines are part of the baseline
 	if !warmed[r.Key] {
@@ -387,11 +472,28 @@ var _ = strings.Join
 
 func TestC18(t *testing.T) {
 	defer rig.StopAll()
-	rec.SetRule("batches of 4..16 concurrent exchanges through the full stack (engine x proxy profile), each one of: gated stream (the backend sends chunk k+1 only after the client acknowledged chunk k; 1..12 chunks of 1 B..256 KiB), complete stream with pauses <= 300 ms (1..30 chunks), stall after the headers / after k chunks (or before the headers), client abort after k chunks; content types SSE, NDJSON, JSON, text, binary; framings chunked, Content-Length, close-delimited; read timeout 1.5 s. After every batch goroutine count and upstream connections must return to the baseline. non-trivial = gated stream with >=3 chunks in a streaming mode, stall after >=1 chunk, abort mid-body; distinct by (engine, profile, item)")
+	rec.SetRule("batches of 4..16 concurrent exchanges through the full stack (engine x proxy profile), each one of: gated stream (the backend sends chunk k+1 only after the client acknowledged chunk k; 1..12 chunks of 1 B..256 KiB), complete stream with pauses <= 300 ms (1..30 chunks), stall after the headers / after k chunks (or before the headers), client abort after k chunks or before the backend has answered (the latter also on the translated Anthropic streaming route); content types SSE, NDJSON, JSON, text, binary; framings chunked, Content-Length, close-delimited; read timeout 1.5 s. A third of the batches (and 8 fixed probes) repeat one exchange n times. After every batch goroutine count and upstream connections must return to the baseline (+2 goroutines slack). non-trivial = gated stream with >=3 chunks in a streaming mode, stall after >=1 chunk, abort mid-body; distinct by (engine, profile, item)")
 	rec.Assume("liveness is judged causally (gates), not by wall clock; time bounds are one-sided: stall ends within read timeout + 5 s while the backend itself only gives up after read timeout + 12 s; cancellation within 5 s; pauses <= 300 ms (a fifth of the timeout) must never be cut")
 	rec.Assume("octet-stream under the auto profile and everything under the standard profile is documented as buffered: only completeness is checked there")
 	if ev.Replay(t, rec, "stream", runCase) {
 		return
+	}
+	// deterministic probes: homogeneous batches of each way an exchange can end early
+	probes := []Item{
+		{Kind: "abort", CT: "text/event-stream", Framing: "chunked", Chunks: []int{64}, At: -1},
+		{Kind: "abort", CT: "text/event-stream", Framing: "chunked", Chunks: []int{64}, At: -1, Route: "translated"},
+		{Kind: "abort", CT: "text/event-stream", Framing: "chunked", Chunks: []int{64, 64}, At: 1},
+		{Kind: "stall", CT: "application/x-ndjson", Framing: "chunked", Chunks: []int{64, 64}, At: 1},
+	}
+	k := 0
+	for _, e := range []string{"sherpa", "olla"} {
+		for _, it := range probes {
+			k++
+			if k%rec.Shards() != rec.Shard() {
+				continue
+			}
+			ev.Direct(rec, "stream", Case{Engine: e, Profile: "auto", Items: []Item{it, it, it, it, it, it}}, runCase)
+		}
 	}
 	ev.Check(t, rec, "stream", rec.Pick(12, 150), genCase, runCase)
 }
